@@ -16,18 +16,24 @@
 
   Encoder-IR theorems (Model/Ir*.lean, Proofs/Ir*.lean):
 
-  * `exec_compile_eq_encode_partial`  compiler correctness on the sub-universe `Ir.Sub` (bool, integers, floats, string,
-        json.Number, []byte, pointers, slices, arrays, string-keyed maps sorted or in iteration order, structs with
-        tags / omitempty / omitzero / `,string` on non-strings, inline or through OP_recurse) for values `Ir.Conf`
-        (inhabitants; no -0.0 under omitempty) whose type needs at most MaxStack states.  PARTIAL: interface{}
-        (OP_eface is in the machine, not in the theorem), named types / callbacks (outside the model), other key
-        kinds, option EncOnlyOmitNull.
+  * `exec_compile_eq_encode_partial`  compiler correctness on the sub-universe `Ir.Sub`: bool, integers, floats, string,
+        json.Number, []byte, interface{} (OP_eface re-enters on the dynamic type, itself in the sub-universe), pointers,
+        slices, arrays, maps with string / integer keys sorted or in iteration order, structs with tags / omitempty /
+        omitzero / `,string` on non-strings, inline or through OP_recurse, and the RECURSIVE named struct types `Rec`,
+        `Tree` with `Compiler.tab` (a type met while it is being compiled is OP_recurse into its own program) - by
+        induction on the VALUE; for values `Ir.Conf` (inhabitants; no -0.0 under omitempty; under the compile option
+        EncOnlyOmitNull every omitempty field nil or not empty) that need (`Ir.needV`, value-level) at most MaxStack
+        states.  PARTIAL: callback types (json.Marshaler / TextMarshaler: outside the model), bool / float map keys
+        (`bool_key_deviates`), embedded fields.
   * `exec_compile_eq_encode_fails`    the FULL statement (all types, values, options) is false on the faithful model:
-        witnesses are the two known deviations of the compiler from encoding/json, replayed on the real code by the
-        C03 check (known findings C03-omitempty-negative-zero, C03-string-opt-inner-literal)
+        witnesses are known deviations of the compiler from encoding/json, replayed on the real code by the C03 check
+        (known findings C03-omitempty-negative-zero, C03-string-opt-inner-literal, C03-map-key-kinds-beyond-std) and
+        the documented meaning of EncOnlyOmitNull (`omitnull_deviates`)
   * `stack_balanced`                  a value's program returns with exactly the state stack it was given (save/drop discipline)
   * `too_deep_is_error`               OP_save on a full stack is ERR_too_deep; no instruction and no run lets the stack
         exceed MaxStack (the array of vars.Stack is never indexed out of bounds)
+  * `backends_dispatch_same_helpers`  regenerated-fact tie for the JIT: per opcode, the x86 assembler's `_asm_OP_*` routine and the
+        interpreter's `case` test the same option bits and call corresponding helpers (go/factx_x86 -> Generated/X86.lean)
   * `inline_depth_irrelevant`         MaxInlineDepth (inline struct body vs. OP_recurse into the struct's own program)
         does not change the result, for all depths >= 1
 
@@ -42,6 +48,7 @@
 import SonicSpec.Proofs.EncCompat
 import SonicSpec.Proofs.EncCompatInt
 import SonicSpec.Proofs.IrCorrect
+import SonicSpec.Model.IrBackends
 namespace SonicSpec.Props.C12
 open SonicSpec SonicSpec.Enc
 
@@ -102,14 +109,14 @@ example : Compat.quote [8, 10, 34, 226, 128, 168, 255, 60] =
 
 open SonicSpec.Go SonicSpec.Ir
 
-/-- COMPILER CORRECTNESS (C03 deep part = the model-level statement of C12).  For every type of the sub-universe,
-    every `pv`, every option set, every MaxInlineDepth >= 1 and every value of the type: interpreting the compiled
-    program gives exactly the specification's text, or exactly the specification's error. -/
+/-- COMPILER CORRECTNESS (C03 deep part = the model-level statement of C12).  For every type of the sub-universe
+    (interface{} and the recursive named types included), every `pv`, every option set, every MaxInlineDepth >= 1 and
+    every value of the type: interpreting the compiled program gives exactly the specification's text, or exactly
+    the specification's error. -/
 theorem exec_compile_eq_encode_partial (o : EncOpts) (co : COpts) (T : GoType) (pv : Bool) (v : GoVal)
-    (hnull : co.encOnlyOmitNull = false) (hco : 0 < co.maxInlineDepth)
-    (hS : Sub T = true) (hC : Conf T v = true) (hroom : need T ≤ maxStack) :
+    (hco : 0 < co.maxInlineDepth) (hS : Sub T = true) (hC : Conf co T v = true) (hroom : needV T v ≤ maxStack) :
     exec o co (compile co T pv) v = liftE (Enc.encode o T v) := by
-  obtain ⟨n, hn⟩ := compile_run (o := o) hnull hco hS hC pv false [] [] (by simpa using hroom)
+  obtain ⟨n, hn⟩ := compile_run (o := o) hco hS hC pv false [] [] (by simpa using hroom)
   apply exec_eq_of_fuel (n := n)
   unfold execFuel
   rw [hn]
@@ -155,11 +162,11 @@ theorem exec_compile_eq_encode_fails : ¬ ExecCompileEqEncode := by
 /-- SAVE/DROP DISCIPLINE: the program of a value, started on any stack with room for it, returns with exactly that
     stack - and the text it appended is the specification's -/
 theorem stack_balanced (o : EncOpts) (co : COpts) (T : GoType) (pv fpv : Bool) (v : GoVal) (s s' : Stack) (b b' : Bytes)
-    (hnull : co.encOnlyOmitNull = false) (hco : 0 < co.maxInlineDepth)
-    (hS : Sub T = true) (hC : Conf T v = true) (hroom : s.length + need T ≤ maxStack)
+    (hco : 0 < co.maxInlineDepth)
+    (hS : Sub T = true) (hC : Conf co T v = true) (hroom : s.length + needV T v ≤ maxStack)
     (h : Halts o co fpv (compile co T pv) 0 (Regs.start (.val v)) s b (.ok (s', b'))) :
     s' = s ∧ ∃ j, encV o false T v = .ok j ∧ b' = b ++ Json.render j := by
-  have h2 := compile_run (o := o) hnull hco hS hC pv fpv s b hroom
+  have h2 := compile_run (o := o) hco hS hC pv fpv s b hroom
   have := Halts.unique h h2
   cases hj : encV o false T v with
   | error e => rw [hj] at this; cases this
@@ -189,8 +196,8 @@ theorem too_deep_is_error (o : EncOpts) (co : COpts) :
     limit - known finding C03-max-stack-depth) -/
 theorem too_deep_witness (o : EncOpts) (co : COpts) (t : GoType) (w : GoVal) (s : Stack) (hs : s.length = maxStack) :
     Halts o co false (compile co (.ptr t) false) 0 (Regs.start (.val (.ptr w))) s [] (.error .tooDeep) := by
-  have hat : At (compile co (.ptr t) false) 0 (code co 0 0 false (.ptr t)) := At.whole _
-  rw [code] at hat
+  have hat : At (compile co (.ptr t) false) 0 (code co (libK co libNames.length) [] 0 0 false (.ptr t)) := At.whole _
+  rw [code, if_neg (by simp [tabHas])] at hat
   simp only [List.cons_append, List.nil_append] at hat
   refine halts_step (hat.get 0 (by omega) rfl) (by simp only [step, Regs.start, Cur.get, jumpIf]; rfl) ?_
   exact halts_err (hat.get 1 (by omega) rfl) (by simp only [step]; rw [if_pos (by omega)])
@@ -198,33 +205,77 @@ theorem too_deep_witness (o : EncOpts) (co : COpts) (t : GoType) (w : GoVal) (s 
 /-- OUT-OF-LINE == INLINE: the result does not depend on MaxInlineDepth (all depths >= 1): a struct body compiled in
     place and an OP_recurse into the struct's own program write the same text -/
 theorem inline_depth_irrelevant (o : EncOpts) (co₁ co₂ : COpts) (T : GoType) (pv₁ pv₂ : Bool) (v : GoVal)
-    (h₁ : co₁.encOnlyOmitNull = false) (h₂ : co₂.encOnlyOmitNull = false) (d₁ : 1 ≤ co₁.maxInlineDepth) (d₂ : 1 ≤ co₂.maxInlineDepth)
-    (hS : Sub T = true) (hC : Conf T v = true) (hroom : need T ≤ maxStack) :
+    (d₁ : 1 ≤ co₁.maxInlineDepth) (d₂ : 1 ≤ co₂.maxInlineDepth)
+    (hS : Sub T = true) (hC₁ : Conf co₁ T v = true) (hC₂ : Conf co₂ T v = true) (hroom : needV T v ≤ maxStack) :
     exec o co₁ (compile co₁ T pv₁) v = exec o co₂ (compile co₂ T pv₂) v := by
-  rw [exec_compile_eq_encode_partial o co₁ T pv₁ v h₁ d₁ hS hC hroom, exec_compile_eq_encode_partial o co₂ T pv₂ v h₂ d₂ hS hC hroom]
+  rw [exec_compile_eq_encode_partial o co₁ T pv₁ v d₁ hS hC₁ hroom, exec_compile_eq_encode_partial o co₂ T pv₂ v d₂ hS hC₂ hroom]
+
+/-- map[bool]T: the machine writes the key (compileMapBodyTextKey / appendGeneric have a `Bool` case), encoding/json
+    refuses the type.  Known finding C03-map-key-kinds-beyond-std. -/
+theorem bool_key_deviates :
+    exec {} {} (compile {} (.map .bool (.int 64)) false) (.map [(.bool true, .int 1)]) = .ok (ascii "{\"true\":1}") ∧
+    Enc.encode {} (.map .bool (.int 64)) (.map [(.bool true, .int 1)]) = .error .unsupportedType := by
+  refine ⟨exec_eq_of_fuel (n := 40) ?_, ?_⟩
+  · decide +kernel
+  · decide +kernel
+
+def tOmitNull : GoType := .st [("A", some (ascii "a,omitempty"), .sl (.int 64)), ("B", some (ascii "b,omitempty"), .int 64)]
+def vOmitNull : GoVal := .st [.sl [], .int 0]
+
+/-- the compile option EncOnlyOmitNull changes what `omitempty` means (only nil is omitted): an empty slice and a
+    zero integer are written.  Documented behaviour of the option (option/option.go:42), outside `Conf`. -/
+theorem omitnull_deviates :
+    exec {} { encOnlyOmitNull := true } (compile { encOnlyOmitNull := true } tOmitNull false) vOmitNull = .ok (ascii "{\"a\":[],\"b\":0}") ∧
+    Enc.encode {} tOmitNull vOmitNull = .ok (ascii "{}") := by
+  refine ⟨exec_eq_of_fuel (n := 60) ?_, ?_⟩
+  · decide +kernel
+  · decide +kernel
+
+/-- JIT ≡ VM AS FAR AS THE SOURCE SHOWS IT (regenerated from x86/assembler_regabi_amd64.go `_OpFuncTab` and vm/vm.go `Execute` on every
+    run): the assembler's dispatch table covers exactly the opcodes of ir/op.go, in order, each by the method named after it;
+    the interpreter's switch handles exactly the same opcodes, each once; for every opcode both back ends test the same option
+    bits and call corresponding helpers (`Ir.helperPair`: native subroutine vs. Go function, same function otherwise). -/
+theorem backends_dispatch_same_helpers :
+    Gen.x86Dispatch.map (·.1) = Gen.irOps ∧
+    Ir.sameSet (Gen.vmDispatch.map (·.1)) Gen.irOps = true ∧ (Gen.vmDispatch.map (·.1)).length = Gen.irOps.length ∧
+    ∀ op ∈ Gen.irOps, Ir.backendsAgreeOn op = true := by
+  decide +kernel
+
+/-- the table is not trivially satisfied: a formatting opcode has a helper pair, and a mismatch is seen -/
+example : Ir.jitOf "OP_f64" = some ("_asm_OP_f64", ["native.S_f64toa", "rt.GrowSlice"], ["alg.BitEncodeNullForInfOrNan"]) ∧
+    Ir.vmOf "OP_f64" = some (["alg.F64toa"], ["alg.BitEncodeNullForInfOrNan"]) ∧
+    Ir.sameSet ["alg.F64toa"] ["alg.F32toa"] = false := by decide +kernel
 
 /-! ### non-vacuity -/
 
 def tDemo : GoType :=
   .st [("A", some (ascii "a,omitempty"), .int 64), ("P", none, .ptr (.sl (.arr 2 .f64))),
-       ("M", some (ascii "m"), .map .str (.st [("X", some (ascii ",string"), .uint 8), ("Y", some (ascii "-"), .bool)])), ("N", some (ascii ",omitzero"), .num)]
+       ("M", some (ascii "m"), .map .str (.st [("X", some (ascii ",string"), .uint 8), ("Y", some (ascii "-"), .bool)])), ("N", some (ascii ",omitzero"), .num),
+       ("I", some (ascii "i"), .any), ("K", some (ascii "k"), .map (.int 16) .bool), ("R", some (ascii "r,omitempty"), .ptr (.lib "Rec"))]
 def vDemo : GoVal :=
   .st [.int 0, .ptr (.sl [.arr [.f64 0x3ff8000000000000, .f64 0], .arr [.f64 0x4059000000000000, .f64 0xbff0000000000000]]),
-       .map [(.str (ascii "k2"), .st [.uint 7, .bool true]), (.str (ascii "k1"), .st [.uint 255, .bool false])], .num (ascii "1e3")]
+       .map [(.str (ascii "k2"), .st [.uint 7, .bool true]), (.str (ascii "k1"), .st [.uint 255, .bool false])], .num (ascii "1e3"),
+       .any (.sl .any) (.sl [.nil, .any (.map .str (.uint 8)) (.map [(.str (ascii "z"), .uint 9)])]),
+       .map [(.int 10, .bool true), (.int (-2), .bool false)],
+       .ptr (.st [.int 1, .ptr (.st [.int 2, .nil])])]
 
-/-- the hypotheses of the theorem hold for a value that exercises every constructor of the sub-universe -/
-example : Sub tDemo = true ∧ Conf tDemo vDemo = true ∧ need tDemo ≤ maxStack := by decide +kernel
+/-- the hypotheses of the theorem hold for a value that exercises every constructor of the sub-universe: interface{} holding
+    a slice of interfaces, integer keys, the recursive type `Rec` two levels deep -/
+example : Sub tDemo = true ∧ Conf {} tDemo vDemo = true ∧ needV tDemo vDemo ≤ maxStack := by decide +kernel
 /-- ... and the two sides of the equation on it (computed independently), sorted keys -/
-example : execFuel 400 { sortMapKeys := true } {} (compile {} tDemo false) vDemo =
-    some (.ok (ascii "{\"P\":[[1.5,0],[100,-1]],\"m\":{\"k1\":{\"X\":\"255\"},\"k2\":{\"X\":\"7\"}},\"N\":1e3}")) := by decide +kernel
+example : execFuel 600 { sortMapKeys := true } {} (compile {} tDemo false) vDemo =
+    some (.ok (ascii "{\"P\":[[1.5,0],[100,-1]],\"m\":{\"k1\":{\"X\":\"255\"},\"k2\":{\"X\":\"7\"}},\"N\":1e3,\"i\":[null,{\"z\":9}],\"k\":{\"-2\":false,\"10\":true},\"r\":{\"v\":1,\"next\":{\"v\":2}}}")) := by decide +kernel
 example : Enc.encode { sortMapKeys := true } tDemo vDemo =
-    .ok (ascii "{\"P\":[[1.5,0],[100,-1]],\"m\":{\"k1\":{\"X\":\"255\"},\"k2\":{\"X\":\"7\"}},\"N\":1e3}") := by decide +kernel
-/-- the same value with MaxInlineDepth 1: the nested struct is reached through OP_recurse -/
-example : ((compile { maxInlineDepth := 1 } tDemo false).any fun i => match i with | .recurse _ _ => true | _ => false) = true ∧
-    execFuel 400 { sortMapKeys := true } { maxInlineDepth := 1 } (compile { maxInlineDepth := 1 } tDemo false) vDemo =
-      execFuel 400 { sortMapKeys := true } {} (compile {} tDemo false) vDemo := by decide +kernel
+    .ok (ascii "{\"P\":[[1.5,0],[100,-1]],\"m\":{\"k1\":{\"X\":\"255\"},\"k2\":{\"X\":\"7\"}},\"N\":1e3,\"i\":[null,{\"z\":9}],\"k\":{\"-2\":false,\"10\":true},\"r\":{\"v\":1,\"next\":{\"v\":2}}}") := by decide +kernel
+/-- the same value with MaxInlineDepth 1: the nested struct is reached through OP_recurse; `*Rec` inside `Rec` is OP_recurse at any depth -/
+example : ((compile { maxInlineDepth := 1 } tDemo false).any fun i => match i with | .recurse (.st _) _ => true | _ => false) = true ∧
+    ((compile {} tDemo false).any fun i => match i with | .recurse (.ptr (.lib _)) _ => true | _ => false) = true ∧
+    execFuel 600 { sortMapKeys := true } { maxInlineDepth := 1 } (compile { maxInlineDepth := 1 } tDemo false) vDemo =
+      execFuel 600 { sortMapKeys := true } {} (compile {} tDemo false) vDemo := by decide +kernel
 /-- a NaN is the specification's error on both sides -/
 example : execFuel 50 {} {} (compile {} (.sl .f64) false) (.sl [.f64 0, .f64 0x7ff8000000000001]) = some (.error (.enc .unsupportedValue)) ∧
     Enc.encode {} (.sl .f64) (.sl [.f64 0, .f64 0x7ff8000000000001]) = .error .unsupportedValue := by decide +kernel
+/-- EncOnlyOmitNull inside the theorem: nil or non-empty `omitempty` fields -/
+example : Conf { encOnlyOmitNull := true } tOmitNull (.st [.nil, .int 5]) = true ∧ Conf { encOnlyOmitNull := true } tOmitNull vOmitNull = false := by decide +kernel
 
 end SonicSpec.Props.C12
